@@ -430,6 +430,33 @@ def wide_own_stream(rep, rng, n):
                 return
 
 
+def big_retrieve_stream(rep, rng, n):
+    """one retrieve() call with well over a thousand queries in random order: row i must be what retrieve_single(query i) returns"""
+    for _ in range(n):
+        spec = au.gen_spec(rng, kinds=("grid", "cvt", "cvt_brute", "sliding"), cma=False, max_cells=40)
+        spec["extras"] = ["ev"] if rng.random() < 0.5 else []
+        ops = au.gen_history(rng, spec, rng.randint(3, 8), 6, lambda q: q.randrange(-64, 65) / 8.0, clear_rate=0.0)
+        trace, mops, archive, table = au.run_impl(spec, ops, obs=False)
+        dtype = au.DT[spec["dtype"]]
+        nq = rng.choice([1100, 1500, 2300])
+        stored = archive.data("measures")
+        q = np.array([[rng.uniform(lo - 0.2, hi + 0.2) for lo, hi in spec["ranges"]] for _ in range(nq)], dtype=dtype)
+        for j in range(min(len(stored), 40)):
+            q[rng.randrange(nq)] = stored[rng.randrange(len(stored))]
+        occ, d = archive.retrieve(q)
+        rep.count("big_retrieve_cases")
+        for i in sorted(set([0, nq - 1] + [rng.randrange(nq) for _ in range(80)])):
+            o1, e1 = archive.retrieve_single(q[i])
+            same = bool(occ[i]) == bool(o1) and all(
+                (np.array_equal(np.asarray(d[f][i]), np.asarray(e1[f]), equal_nan=True) if np.asarray(e1[f]).dtype != object else d[f][i] == e1[f]) for f in e1)
+            if not same:
+                rep.violation("retrieve() with %d queries: row %d (measures %s) reports occupied=%s, index %s; retrieve_single of the same measures reports "
+                              "occupied=%s, index %s" % (nq, i, q[i].tolist(), bool(occ[i]), d["index"][i], bool(o1), e1["index"]),
+                              {"kind": "property", "broken": "C07_retrieve_spec (each query gets the elite of the cell its measures map to)",
+                               "case": {"spec": spec, "ops": ops, "n_queries": nq, "row": i, "query": q[i].tolist()}}, True, {"kind": "big-retrieve-row-mismatch"})
+                return
+
+
 def check(rep, tier, seed, driver):
     rng = random.Random(seed)
     n = 160 if tier == "quick" else 3000
@@ -500,3 +527,4 @@ def check(rep, tier, seed, driver):
                      theorems=["C07_retrieve_spec", "C07_stored_elite_retrievable", "C07_sliding_retrievable", "C07_sample_current", "C07_sample_reaches"])
     run_cases_spec(cases)
     wide_own_stream(rep, rng, 40 if tier == "quick" else 600)
+    big_retrieve_stream(rep, rng, 6 if tier == "quick" else 60)
